@@ -49,7 +49,8 @@ def o2_5a_recover_wal_records(mir, tier):
         P[r'DbOptions::max_memtable_size'] = lambda se, env, pc, o: lib.one(env, BitVec('max_memtable_size', 64))
         P[r'DbOptions::reuse_log_files'] = lambda se, env, pc, o: lib.one(env, reuse)
         def conv(se, env, pc, *a):
-            _add(env, ('convert_memtable_to_file',)); return [(None, Enum('Ok', ((),)), env['$state'])]
+            base = a[3] if len(a) > 3 else None
+            _add(env, ('convert_memtable_to_file', isinstance(base, Enum) and base.tag == 'None')); return [(None, Enum('Ok', ((),)), env['$state'])]
         P[r'DB::convert_memtable_to_file'] = conv
         def set_wal(se, env, pc, *a):
             _add(env, ('reuse_wal',)); return [(None, (), env['$state'])]
@@ -71,6 +72,7 @@ def o2_5a_recover_wal_records(mir, tier):
                 nconv = len([e for e in evs if e[0] == 'convert_memtable_to_file'])
                 reused = ('reuse_wal',) in evs
                 posts.append(('a WAL is reused although it is not the last one / reuse is disabled', Or(BoolVal(not reused), And(reuse, is_last))))
+                posts.append((LABEL_BASE, BoolVal(all(e[1] for e in evs if e[0] == 'convert_memtable_to_file'))))
                 posts.append(('recovered entries are neither kept in the live memtable nor written to a table', Or(BoolVal(('install_memtable',) in evs), BoolVal(nconv >= 1), BoolVal(R == 0))))
             else:
                 posts.append(('recovery of a readable WAL fails', BoolVal(False)))
@@ -81,8 +83,8 @@ def o2_5a_recover_wal_records(mir, tier):
                 if m is not None:
                     res.violations.append({'label': label, 'records': R, 'events': [str(e) for e in evs],
                                            'replay': ['db_scenario', 'P6b31=01', 'B6b32=02+6b33=03+6b34=04', 'R', 'G6b31', 'G6b32', 'G6b33', 'G6b34', 'P6b35=05', 'G6b34', 'G6b35', 'I'] if 'last sequence' in label else
-                                                     (SHORT_RECORDS if 'not every WAL record' in label else None),
-                                           'confirmed_by': None if ('last sequence' in label or 'not every WAL record' in label) else {'reproduced': False, 'detail': 'no native scenario for this label'}})
+                                                     (SHORT_RECORDS if 'not every WAL record' in label else (['two_wal_crash_reopen', 'noreuse'] if label == LABEL_BASE else None)),
+                                           'confirmed_by': None if ('last sequence' in label or 'not every WAL record' in label or label == LABEL_BASE) else {'reproduced': False, 'detail': 'no native scenario for this label'}})
         env = {'$state': {'events': [], 'next': 0, 'n': 0}, '$db': {'abstract': True, '__ty': 'DB'}, '$g': {'abstract': True}, '$guard': Ref('$g'), '$cm': {'abstract': True}}
         ex.top(fn, [Ref('$db'), Ref('$guard'), BitVec('wal_number', 64), is_last, Ref('$cm')], env, pre, k)
         ex.bound_hits = []
@@ -92,11 +94,18 @@ def o2_5a_recover_wal_records(mir, tier):
     return res
 
 
+LABEL_BASE = 'a table written while write-ahead logs are replayed is placed by looking at the current version (tables of logs replayed earlier in this recovery are in no version yet: the newer table can end up below an older one)'
+
 # the shortest records a WAL can hold: a delete of the empty key alone (11 bytes), a delete of a one-byte key (12), a put of an empty value
 SHORT_RECORDS = ['db_scenario', 'P=01', 'D', 'P61=02', 'D61', 'P62=', 'R', 'G', 'G61', 'G62', 'I', 'P63=03', 'R', 'G', 'G63', 'I']
 
 
 def scenario_confirm(v, out):
+    if v['replay'][0] == 'two_wal_crash_reopen':
+        if out.get('_rc') != 0: return (False, 'native run failed: %s' % out.get('_stderr', '')[-300:])
+        bad = out.get('stale_overwrite') != '0' or out.get('lost') != '0' or out.get('first_reopen') != 'ok' or out.get('second_reopen') != 'ok'
+        return (bad, 'crash image with logs %s (a key of the first log is overwritten in the second), reopened twice without log reuse: reopens %s / %s%s, unreadable keys %s, reads of the overwritten key that return the older value %s'
+                % (out.get('wals_at_crash'), out.get('first_reopen'), out.get('second_reopen'), ' (the reopen %s)' % out.get('reopen_thread') if out.get('reopen_thread') else '', out.get('lost'), out.get('stale_overwrite')))
     return dbmodel.compare(v['replay'][1:], out)
 
 
